@@ -4,11 +4,11 @@ import importlib, json, os, sys
 HERE = os.path.dirname(os.path.dirname(os.path.abspath(__file__)))
 sys.path.insert(0, os.path.join(HERE, "lib")); sys.path.insert(0, os.path.join(HERE, "props"))
 FAM = {"C01": "FmtStream (+_gen, _trace)", "C02": "FmtReader (+_gen, dup mode), FmtLine (+_gen), FmtSoup_trace", "C03": "NumLit (+_gen, _genfile)",
-       "C04": "Units (+_gen, _trace)", "C05": "Names (+_gen, _chunks)", "C06": "FilterSem (+_gen, _trace)", "C07": "Lexer (+_gen, token exploration)",
-       "C08": "Projection (+_gen)", "C09": "Projection (+_gen)", "C10": "Scale (+_gen)", "C11": "UTest (+_gen, deal census)",
-       "C12": "Stats (+_gen)", "C13": "Summaries (+_gen)", "C14": "Benchstat (+_gen)", "C15": "TablesPar (+_gen, _trace)",
+       "C04": "Units (+_gen, _trace)", "C05": "Names (+_gen, _chunks)", "C06": "FilterSem (+_gen, _trace)", "C07": "Lexer (+_gen; character, token and semantic-term exploration)",
+       "C08": "Projection (+_gen; quick, grow, sim, sim2)", "C09": "Projection (+_gen; quick, grow, sim, sim2)", "C10": "Scale (+_gen)", "C11": "UTest (+_gen, deal census)",
+       "C12": "Stats (+_gen)", "C13": "Summaries (+_gen)", "C14": "Benchstat (+_gen)", "C15": "TablesPar (+_gen, _trace), TablesParDyn (+_trace), TablesParObs_trace, TablesPar_refines",
        "C16": "TextTab, KeyHeader (+_gen, _trace)", "C17": "Legacy (+_gen)", "C18": "Series, SeriesDates (+_gen)",
-       "C19": "StoreQuery, Words (+_gen, _trace)", "C20": "Upload (+_gen, _idtrace, _vis)"}
+       "C19": "StoreQuery, Words (+_gen, _trace)", "C20": "Upload (+_gen, _idtrace incl. the repository's storage tests, _vis)"}
 known = json.load(open(os.path.join(HERE, "known_findings.json")))["findings"]
 print("| id | spec modules | level | TLC distinct / generated states | cases + traces bound to the code | quick wall | findings (fixed / known) |")
 print("|---|---|---|---|---|---|---|")
